@@ -27,9 +27,21 @@ What is added on top of `py2lean_extra.ExtraTranslator` (everything else still r
       mutated list is a local variable whose value never escapes by reference), `tuple(L)`,
       `L[i]` with a natural-number index (RAISES IndexError -> `PyErr.other`, there is no dedicated constructor),
       `L[-1:][0]` handled as `L[len(L) - 1]` when it is the whole expression (RAISES IndexError for the empty list);
-    * `for i in range(a, b)` (`List.range' a (b - a)`; `List.range b` when a = 0), nested `for` loops,
-      `for i, x in enumerate(L)`, `reversed(L[:-1])`, `zip`;
+    * `for i in range(a, b)` (`List.range' a (b - a)`; `List.range b` when a = 0, so that `range(0, n)` and `range(n)` give the
+      SAME output; `a` may be any natural-number expression: `range(a, b)` is empty when `b <= a`, as is `List.range' a (b - a)`
+      with truncated subtraction), nested `for` loops, `for i, x in enumerate(L)`, `reversed(L[:-1])`, `zip`;
     * `sum((e for x, y in zip(A, B)), start)` as a left fold starting from `start`;
+    * comprehensions `[elt for x in it if c ..]`, also as `tuple(elt for ..)` / `list(elt for ..)`: the iterable is evaluated once
+      in the enclosing scope, then for each element in order the conditions and `elt`; `List.map` over (`List.filter` of) the
+      iterable when `elt` cannot raise, `List.mapM` in `Except` (left to right, the first exception ends the evaluation) when it
+      can; conditions that could raise are refused; one `for` clause only; the target is local to the comprehension;
+    * `L[::2]`, `L[:-1]` of a list / tuple also as a VALUE (`even = L[::2]`): `everyOther L`, `L.dropLast` (a slice is a new object);
+      `x not in L` is `¬ (x in L)`;
+    * `x += e` on a local name: `x = x + e` on the immutable types; on a list / bytearray it is the in-place `x.extend(e)` (`x` is
+      then subject to the aliasing check like any mutated list); `x <op>= e` for the other operators is `x = x <op> e`;
+  loops
+    * the loop-carried variables of a `for` loop form the state tuple IN THE ORDER OF THEIR FIRST ASSIGNMENT IN THE LOOP BODY
+      (`for_loop_core`; the base class sorts them by name, so that renaming a local could permute the tuple);
   ints
     * `a << k` for a literal `k >= 0` is `a * 2 ^ k` (exact on all Python ints).
 
@@ -48,7 +60,7 @@ X._ATOMS.add(BYTE)        # a byte is not a field element: no arithmetic on it i
 UNK = "?elem"             # element type of a `[]` that has not been determined yet (never reaches the output)
 X._ATOMS.add(UNK)
 
-APPEND, EXTEND, SETITEM = "__py_append", "__py_extend", "__py_setitem"
+APPEND, EXTEND, SETITEM, IADD = "__py_append", "__py_extend", "__py_setitem", "__py_iadd"
 
 SAFE_ORD_BODY = "if isinstance(value, int):\n    return value\nelse:\n    return ord(value)"
 
@@ -90,6 +102,22 @@ class _Mutations(ast.NodeTransformer):
                                             args=[ast.Name(id=n, ctx=ast.Load()), v.args[0]], keywords=[]))
             return ast.copy_location(new, node)
         return node
+
+    def visit_AugAssign(self, node):
+        """`x += e` on a local name: for the immutable types (ints, bytes, field elements) it re-binds `x = x + e`; for a list or a
+        bytearray it extends the object in place, so `x` is treated as mutated (aliasing check) and re-bound to `x ++ e`.  Which
+        of the two it is is decided from the type of `x` when the pseudo-call is translated.  `x <op>= e` for the other operators
+        is `x = x <op> e` (they are only translated on immutable types)."""
+        if not isinstance(node.target, ast.Name):
+            return node
+        n = node.target.id
+        load = ast.Name(id=n, ctx=ast.Load())
+        if isinstance(node.op, ast.Add):
+            self.mutated.add(n)
+            value = ast.Call(func=ast.Name(id=IADD, ctx=ast.Load()), args=[load, node.value], keywords=[])
+        else:
+            value = ast.BinOp(left=load, op=node.op, right=node.value)
+        return ast.copy_location(ast.Assign(targets=[ast.Name(id=n, ctx=ast.Store())], value=value), node)
 
     def visit_Assign(self, node):
         if len(node.targets) == 1 and isinstance(node.targets[0], ast.Subscript) \
@@ -253,6 +281,8 @@ class HashTranslator(ExtraTranslator):
                 return f"{h}.{'digestSize' if e.attr == 'digest_size' else 'blockSize'}", NAT
         if isinstance(e, ast.List):
             return self.list_display(e, env)
+        if isinstance(e, ast.ListComp):
+            return self.comprehension(e, env)
         if isinstance(e, (ast.IfExp, ast.BoolOp)) and self.binds is not None:
             # operands of a conditional expression are not always evaluated: nothing raising may be hoisted out of them
             m = self.mark()
@@ -314,6 +344,78 @@ class HashTranslator(ExtraTranslator):
         if t in ("prop", ("none",)):
             raise TranslateError(f"list display of {t}")
         return "[" + ", ".join(s for s, _ in parts) + "]", LIST(t)
+
+    def comprehension(self, e, env):
+        """`[elt for x in it if c ..]` (also the generator inside `tuple(..)` / `list(..)`): the iterable is evaluated
+        first, once, in the enclosing scope; then for every element in order the conditions and then `elt` are evaluated
+        in a scope of their own (the target does not leak).  The first exception raised by `elt` ends the evaluation:
+        `List.mapM` in `Except` (left to right, stops at the first error); `List.map` when nothing in `elt` can raise.
+        Conditions must not be able to raise (they are then a `List.filter` applied before the map)."""
+        if len(e.generators) != 1:
+            raise TranslateError("comprehension with more than one `for`")
+        g = e.generators[0]
+        if g.is_async:
+            raise TranslateError("async comprehension")
+        self._range_lo = None
+        it, itt = self.iterable(g.iter, env)
+        lo = self._range_lo
+        if not (isinstance(itt, tuple) and itt[0] == "list") or itt[1] == UNK:
+            raise TranslateError(f"comprehension over {itt}")
+        env2 = dict(env)
+        tg = g.target
+        if isinstance(tg, ast.Name):
+            x = tg.id
+            env2[x] = itt[1]
+            binder, pat = f"({lname(x)} : {lean_type_x(itt[1])})", ""
+        elif isinstance(tg, ast.Tuple) and all(isinstance(n, ast.Name) for n in tg.elts) \
+                and len({n.id for n in tg.elts}) == len(tg.elts) \
+                and isinstance(itt[1], tuple) and itt[1][0] == "tuple" and len(itt[1][1]) == len(tg.elts):
+            if "it__" in env:
+                raise TranslateError("name clash with the comprehension variable")
+            x = None
+            names = [n.id for n in tg.elts]
+            for n, t in zip(names, itt[1][1]):
+                env2[n] = t
+            binder = f"(it__ : {lean_type_x(itt[1])})"
+            pat = "".join(f"let {lname(n)} := {X.proj('it__', len(names), i)}; " for i, n in enumerate(names))
+        else:
+            raise TranslateError(f"comprehension target {ast.unparse(tg)} over {itt}")
+        old_lower = self.lower.get(x)
+        if x is not None:
+            self.lower.pop(x, None)
+            if lo is not None and itt[1] == NAT:
+                self.lower[x] = lo
+        outer = self.binds
+        try:
+            conds = []
+            for c in g.ifs:
+                self.binds = None      # nothing raising may be hoisted out of a condition
+                conds.append(self.cond(c, env2))
+            self.binds = [] if outer is not None else None
+            body, tb = self.expr(e.elt, env2)
+            inner = self.binds
+        finally:
+            self.binds = outer
+            if x is not None:
+                self.lower.pop(x, None)
+                if old_lower is not None:
+                    self.lower[x] = old_lower
+        if self._int_list and tb in self.elem_to_int:
+            body, tb = self.elem_to_int[tb].format(paren(body)), INT
+        if self._int_list and tb in (LIT, BINT, NAT):
+            body = self.cast_lit(body, INT) if tb == LIT else self.cast_bint(body, INT) if tb == BINT \
+                else f"(({body} : Nat) : Int)"
+            tb = INT
+        body, tb = self.norm_val(body, tb)
+        if tb in ("prop", ("none",)) or tb == LIST(UNK):
+            raise TranslateError(f"comprehension of {tb}")
+        for c in conds:
+            it = f"(List.filter (fun {binder} => {pat}decide {paren(c)}) {paren(it)})"
+        if inner:
+            lets = "".join(f"let {v} ← {txt}; " for v, txt in inner)
+            return self.bind(f"(List.mapM (fun {binder} => (do {pat}{lets}pure {paren(body)} : Except PyErr _)) "
+                             f"{paren(it)})"), LIST(tb)
+        return f"(List.map (fun {binder} => {pat}{body}) {paren(it)})", LIST(tb)
 
     def binop_x(self, e, env):
         op = e.op
@@ -384,6 +486,9 @@ class HashTranslator(ExtraTranslator):
                 return self.bind(f"(match List.getLast? {paren(s)} with | some v => pure v | none => throw PyErr.other)"), t[1]
         tb = self.peek_type(e.value, env)
         if isinstance(e.slice, ast.Slice):
+            if isinstance(tb, tuple) and tb[0] == "list" and tb[1] != UNK:
+                # a slice of a list / tuple is a NEW sequence (no aliasing); only the shapes of `seq_expr`
+                return self.seq_expr(e, env)
             if tb != BYTES:
                 return None
             sl = e.slice
@@ -441,6 +546,11 @@ class HashTranslator(ExtraTranslator):
             if tl != LIST(tx) or not is_field(tx):
                 raise TranslateError(f"`in` on {tx} / {tl}")
             return f"(List.contains {paren(L)} {paren(x)} = true)"
+        if isinstance(e, ast.Compare) and len(e.ops) == 1 and isinstance(e.ops[0], ast.NotIn) \
+                and not isinstance(e.comparators[0], ast.Tuple):
+            # x not in L  is  not (x in L)   (`list.__contains__` / `tuple.__contains__`: no user-defined `__contains__`)
+            pos = ast.copy_location(ast.Compare(left=e.left, ops=[ast.In()], comparators=e.comparators), e)
+            return f"(¬ {self.cond(pos, env)})"
         if isinstance(e, ast.BoolOp) and self.binds is not None:
             m = self.mark()
             r = super().cond(e, env)
@@ -463,6 +573,12 @@ class HashTranslator(ExtraTranslator):
         if isinstance(f, ast.Name) and f.id not in env:
             if f.id in (APPEND, EXTEND):
                 return self.append_call(e, env)
+            if f.id == IADD:
+                tn = env.get(e.args[0].id)
+                if tn == BYTES or (isinstance(tn, tuple) and tn[0] == "list"):
+                    return self.append_call(ast.copy_location(ast.Call(func=ast.Name(id=EXTEND, ctx=ast.Load()), args=e.args,
+                                                                       keywords=[]), e), env)
+                return self.expr(ast.copy_location(ast.BinOp(left=e.args[0], op=ast.Add(), right=e.args[1]), e), env)
             if f.id == SETITEM:
                 # L[i] = v: v is evaluated first, then L and i; IndexError when i >= len(L)
                 name = e.args[0].id
@@ -503,6 +619,10 @@ class HashTranslator(ExtraTranslator):
                 if not (t == BYTES or (isinstance(t, tuple) and t[0] == "list")):
                     raise TranslateError(f"len of {t}")
                 return f"(List.length {paren(s)})", NAT
+            if f.id in ("tuple", "list") and len(e.args) == 1 and not e.keywords and isinstance(e.args[0], ast.GeneratorExp):
+                # tuple(elt for x in it) / list(..): the elements of the comprehension, in order
+                g0 = e.args[0]
+                return self.comprehension(ast.copy_location(ast.ListComp(elt=g0.elt, generators=g0.generators), g0), env)
             if f.id == "tuple" and len(e.args) == 1 and not e.keywords:
                 s, t = self.expr(e.args[0], env)
                 if not (isinstance(t, tuple) and t[0] == "list") or t[1] == UNK:
@@ -762,8 +882,14 @@ class HashTranslator(ExtraTranslator):
                 lo, hi = 0, e.args[0]
             else:
                 lo, hi = self.const_eval(e.args[0]), e.args[1]
-                if lo is None or lo < 0 or not isinstance(e.args[0], ast.Constant):
-                    raise TranslateError("range with a non-literal start")
+                if lo is None or not isinstance(e.args[0], ast.Constant):
+                    # range(a, b) for natural-number expressions a, b: a, a+1, .., b-1 (empty when b <= a)
+                    a_, _ = self.nat_arg(e.args[0], env, "range start")
+                    h, _ = self.nat_arg(hi, env, "range bound")
+                    self._range_lo = None
+                    return f"(List.range' {paren(a_)} ({h} - {a_}))", LIST(NAT)
+                if lo < 0:
+                    raise TranslateError("range with a negative start")
             h, _ = self.nat_arg(hi, env, "range bound")
             self._range_lo = lo
             if lo == 0:
@@ -804,6 +930,93 @@ class HashTranslator(ExtraTranslator):
             raise TranslateError(f"unsupported sequence expression {ast.unparse(e)[:60]}")
         return None
 
+    def for_loop_core(self, st, rest, env, fn, cur):
+        """`ExtraTranslator.for_loop` with ONE change: the loop-carried variables are listed in the order of their first
+        assignment in the loop body (the base class sorts them by NAME, so that renaming a local could permute the
+        components of the state tuple)"""
+        if st.orelse or not isinstance(st.target, ast.Name):
+            raise TranslateError(f"{fn.name}: unsupported for loop")
+        it, itt = self.iterable(st.iter, env)
+        if not (isinstance(itt, tuple) and itt[0] == "list"):
+            raise TranslateError(f"{fn.name}: for loop over {itt}")
+        if self.core_abs is not None and not any(isinstance(n, ast.Name) and n.id in env for n in ast.walk(st.iter)) \
+                and all(n.id in self.consts or n.id == "range" for n in ast.walk(st.iter) if isinstance(n, ast.Name)):
+            it, itt = self.lift(st.iter, it, itt)
+        x = st.target.id
+        assigned = self.assigned_names(st.body)
+        if assigned is None:
+            raise TranslateError(f"{fn.name}: for body must consist of assignments and ifs of assignments")
+        if x in assigned:
+            raise TranslateError(f"{fn.name}: loop variable reassigned")
+        used_after = {n.id for s in rest for n in ast.walk(s) if isinstance(n, ast.Name)}
+        if x in used_after:
+            raise TranslateError(f"{fn.name}: loop variable used after the loop")
+        state = []
+        for n in assigned:
+            carried = self.reads_before_write(st.body, n)
+            live = n in used_after
+            definite = not self.maybe_unassigned(st.body, n)
+            if carried or (live and not definite):
+                if n not in env:
+                    raise TranslateError(f"{fn.name}: loop-carried variable {n} undefined before the loop")
+                state.append(n)
+            elif live:
+                # assigned unconditionally in every iteration and used afterwards: its value after the
+                # loop depends on the loop having run at least once
+                raise TranslateError(f"{fn.name}: variable {n} defined only inside the loop is used after it")
+        # (no `state.sort()`: `assigned` is in order of first assignment)
+        if not state:
+            raise TranslateError(f"{fn.name}: loop without loop-carried state")
+        sty = T(*[env[n] for n in state]) if len(state) > 1 else env[state[0]]
+        pat = "(" + ", ".join(lname(n) for n in state) + ")" if len(state) > 1 else lname(state[0])
+        env_body = dict(env)
+        env_body[x] = itt[1]
+        mname = f"__LOOP_STATE_{len(self.markers)}__"
+        marker = ast.Return(value=ast.Name(id=mname, ctx=ast.Load()))
+        raising = self.has_raising_call(st.body)
+        if raising and not fn.raises:
+            raise TranslateError(f"{fn.name}: raising call in a loop of a non-raising function")
+        loopfn = Fn(fn.name + ".<loop>", [], sty, raising)
+        self.markers[mname] = (list(state), [env[n] for n in state])
+        outer_lift_used, self.lift_used = self.lift_used, set()
+        try:
+            body_txt = self.block(list(st.body) + [marker], env_body, loopfn, cur, tail_state=state)
+        finally:
+            del self.markers[mname]
+            body_lifts = [x for x in self.lifted if x[0] in self.lift_used]
+            self.lift_used = outer_lift_used | self.lift_used
+        do = " do" if raising else ""
+        if cur.get("outline_loops"):
+            # the loop body becomes a top-level definition taking the free local variables as parameters
+            used = []
+            for s_ in st.body:
+                for n_ in ast.walk(s_):
+                    if isinstance(n_, ast.Name) and n_.id in env and n_.id not in state and n_.id != x \
+                            and n_.id not in used and n_.id not in assigned:
+                        used.append(n_.id)
+            # a name assigned in the body but read before (conditionally) being assigned would be loop-carried,
+            # hence in `state`; everything else that is read comes from outside
+            k = len(cur["aux_defs"])
+            aux_name = f"{fn.lean_name.split('.')[0]}_loop{k}"
+            pdecl = " ".join([f"({lname(n)} : {lean_type_x(env[n])})" for n in used]
+                             + [f"({pn} : {lean_type_x(pt)})" for pn, pt, _, _ in body_lifts])
+            sdecl = f"(st : {lean_type_x(sty)})" if len(state) > 1 else f"({pat} : {lean_type_x(sty)})"
+            rty = f"Except PyErr ({lean_type_x(sty)})" if raising else lean_type_x(sty)
+            inner = (f"let {pat} := st\n" if len(state) > 1 else "") + body_txt
+            cur["aux_defs"].append(
+                f"/- body of the `for` loop at line {st.lineno} of `{fn.name}`; loop-carried state: {pat} -/\n"
+                f"def {aux_name} {pdecl} {sdecl} ({lname(x)} : {lean_type_x(itt[1])}) : {rty} :={do}\n" + indent(inner, 2))
+            lam = " ".join([aux_name] + [lname(n) for n in used] + [pn for pn, _, _, _ in body_lifts])
+        elif len(state) > 1:
+            lam = (f"fun (st : {lean_type_x(sty)}) {lname(x)} =>{do}\n" + indent(f"let {pat} := st\n" + body_txt, 4))
+        else:
+            lam = (f"fun ({pat} : {lean_type_x(sty)}) {lname(x)} =>{do}\n" + indent(body_txt, 4))
+        if raising:
+            line = f"let {pat} ← List.foldlM ({lam}) {pat} {paren(it)}\n"
+        else:
+            line = f"let {pat} := List.foldl ({lam}) {pat} {paren(it)}\n"
+        return line + self.block(rest, env, fn, cur)
+
     def for_loop(self, st, rest, env, fn, cur):
         self._env = env
         self._range_lo = None
@@ -820,13 +1033,13 @@ class HashTranslator(ExtraTranslator):
                 old = self.lower.get(x)
                 self.lower[x] = lo
                 try:
-                    return super().for_loop(st, rest, env, fn, cur)
+                    return self.for_loop_core(st, rest, env, fn, cur)
                 finally:
                     if old is None:
                         del self.lower[x]
                     else:
                         self.lower[x] = old
-        return super().for_loop(st, rest, env, fn, cur)
+        return self.for_loop_core(st, rest, env, fn, cur)
 
     def block(self, body, env, fn, cur, tail_state=None):
         if body:
@@ -901,9 +1114,9 @@ class HashTranslator(ExtraTranslator):
             elif isinstance(p, ast.BinOp) and isinstance(p.op, ast.Add):
                 ok = True
             elif isinstance(p, ast.Call) and isinstance(p.func, ast.Name):
-                if p.func.id in (APPEND, EXTEND, SETITEM) and p.args[0] is n:
+                if p.func.id in (APPEND, EXTEND, SETITEM, IADD) and p.args[0] is n:
                     ok = True
-                elif p.func.id == EXTEND:
+                elif p.func.id in (EXTEND, IADD):
                     ok = True     # elements are copied
                 elif p.func.id in ("tuple", "len", "bytes", "bytearray") or p.func.id in self.copying:
                     ok = True
@@ -914,7 +1127,7 @@ class HashTranslator(ExtraTranslator):
 
     def function(self, node, src_lines, path, **kw):
         for n in ast.walk(node):
-            if isinstance(n, ast.Name) and n.id in (APPEND, EXTEND, SETITEM):
+            if isinstance(n, ast.Name) and n.id in (APPEND, EXTEND, SETITEM, IADD):
                 raise TranslateError("reserved name")
         mt = _Mutations()
         node2 = copy.deepcopy(node)
